@@ -67,9 +67,53 @@ def r_body(b):
     return ", ".join(r_lit(l) for l in b)
 
 
+def _inline_map(p):
+    """aux predicates (arity 0) listed in p['inline'] are written as an inline disjunction (b1 ; b2) where they are
+    called positively; their own clauses are not printed.  TLC sees them as ordinary rules."""
+    m = {}
+    for name in p.get("inline", []):
+        bodies = [r["body"] for r in p["rules"] if r["head"]["f"] == name]
+        if bodies:
+            m[name] = bodies
+    return m
+
+
+def r_body_inl(b, inl):
+    parts = []
+    for l in b:
+        n = l["atom"]["f"]
+        if l["s"] == 1 and n in inl:
+            parts.append("(" + " ; ".join(r_body_inl(x, inl) if x else "true" for x in inl[n]) + ")")
+        else:
+            parts.append(r_lit(l))
+    return ", ".join(parts)
+
+
 def statements(p, ev_style=0):
     """Return dict kind -> list of statement strings."""
     out = {"facts": [], "ads": [], "rules": [], "queries": [], "evidence": []}
+    inl = _inline_map(p)
+    if inl:
+        for ad in p["ads"]:
+            hs = "; ".join("%s::%s" % (h.get("ptext") or r_prob(h["p"]), r_atom(h["atom"])) for h in ad["heads"])
+            out["ads"].append(hs + (" :- " + r_body_inl(ad["body"], inl) if ad["body"] else "") + ".")
+        for f in p["facts"]:
+            out["facts"].append("%s::%s." % (f.get("ptext") or r_prob(f["p"]), r_atom(f["atom"])))
+        for r in p["rules"]:
+            if r["head"]["f"] in inl:
+                out["rules"].append("")          # printed inline at the call sites
+            else:
+                out["rules"].append(r_atom(r["head"]) + (" :- " + r_body_inl(r["body"], inl) if r["body"] else "") + ".")
+        for q in p["queries"]:
+            out["queries"].append("query(%s)." % r_atom(q))
+        for i, e in enumerate(p["evidence"]):
+            a = r_atom(e["atom"])
+            st = (ev_style + i) % 2 if ev_style >= 0 else 0
+            if e["s"] == 1:
+                out["evidence"].append(("evidence(%s)." if st == 0 else "evidence(%s, true).") % a)
+            else:
+                out["evidence"].append(("evidence(%s, false)." if st == 0 else "evidence(\\+%s).") % a)
+        return out
     for f in p["facts"]:
         out["facts"].append("%s::%s." % (f.get("ptext") or r_prob(f["p"]), r_atom(f["atom"])))
     for ad in p["ads"]:
@@ -95,7 +139,7 @@ def render(p, order=None, ev_style=0):
         order = p.get("order")
     if order is None:
         order = [(k, i) for k in ("facts", "ads", "rules", "queries", "evidence") for i in range(len(st[k]))]
-    return "\n".join(st[k][i] for k, i in order) + "\n"
+    return "\n".join(x for x in (st[k][i] for k, i in order) if x) + "\n"
 
 
 # ---------------------------------------------------------------- analysis
@@ -223,6 +267,8 @@ def features(p):
 
 def canon(p):
     q = {k: p[k] for k in ("consts", "facts", "ads", "rules", "queries", "evidence")}
+    if p.get("inline"):
+        q["inline"] = p["inline"]
     return json.dumps(q, sort_keys=True)
 
 
